@@ -31,7 +31,7 @@ def iter_cases(ctx, rng, n):
     if i % 12 == 11:
       yield gen_reg_case(rng)
       continue
-    spec = probes.gen_spec(rng, shapes=[['fn', 'init', 'new', 'method'][i % 4]], lists=rng.random() < 0.3, max_pos=3)
+    spec = probes.gen_spec(rng, shapes=[['fn', 'init', 'new', 'method', 'fn', 'callable', 'init', 'boundmethod'][i % 8]], lists=rng.random() < 0.3, max_pos=3)
     pos = probes.positional_names(spec)
     names = probes.all_named(spec)
     allow, deny = spec.get('allow'), spec.get('deny')
